@@ -80,6 +80,8 @@ struct Setup {
     /// hash of the block at position n-1 (tip for the candidates)
     tip: H,
     cands: Vec<Cand>,
+    /// (fork point, tip of the four-block side branch) — see `setup`
+    side: Option<(H, H)>,
 }
 
 const FEE: u64 = 20_000;
@@ -164,17 +166,51 @@ fn setup(ci: u64, rng: &mut Rng) -> Option<Setup> {
         &[],
         None,
     );
+    // setup tx 3: three dep-group cells listing the always_success cell 1023 / 1024 / 1025 times
+    // (expansion limit 2048 per transaction, a plain dep counts 1)
+    let big_group = |n: usize| -> Vec<u8> {
+        let mut b = packed::OutPointVec::new_builder();
+        for _ in 0..n {
+            b = b.push(gi.always_success_out_point.clone());
+        }
+        b.build().as_bytes().to_vec()
+    };
+    let lock9 = builder::lock_with_args(&gi, &[9]);
+    let g_caps: Vec<u64> = [1023usize, 1024, 1025].iter().map(|n| builder::occupied(&lock9, &None, 4 + n * 36) + 1_0000_0000).collect();
+    let s3_in = cap_of(&issued[2].1) + cap_of(&issued[3].1);
+    let s3 = if s3_in > g_caps.iter().sum::<u64>() + 100_0000_0000 {
+        Some(builder::build_tx(
+            &gi,
+            &[(out_point(&issued[2].0), 0), (out_point(&issued[3].0), 0)],
+            &[
+                mk_out(g_caps[0], lock9.clone(), big_group(1023)),
+                mk_out(g_caps[1], lock9.clone(), big_group(1024)),
+                mk_out(g_caps[2], lock9.clone(), big_group(1025)),
+                mk_out(s3_in - g_caps.iter().sum::<u64>() - 200_000, builder::lock_with_args(&gi, &[8]), vec![]),
+            ],
+            &[],
+            &[],
+            None,
+        ))
+    } else {
+        None
+    };
+    if let Some(s3) = &s3 {
+        for i in 0..4u32 {
+            tg.keep.insert((h(&s3.hash()), i));
+        }
+    }
     // the generator's own transactions must leave the probes' cells alone
     for i in 0..3u32 {
         tg.keep.insert((h(&s1.hash()), i));
     }
     tg.keep.insert((h(&s2.hash()), 0));
     tg.keep.insert(key_of(&gi.dev1_out_point));
-    for (k, _) in issued.iter().skip(2).take(80) {
+    for (k, _) in issued.iter().skip(4).take(80) {
         tg.keep.insert(*k);
     }
     // propose both and grow the chain with a fork until they are committed
-    let mut tip = tg.extend_ex(&g, &[s1.clone(), s2.clone()]);
+    let mut tip = tg.extend_ex(&g, &[s1.clone(), s2.clone()].into_iter().chain(s3.clone()).collect::<Vec<_>>());
     let target_len = 22 + rng.below(10);
     let mut guard = 0;
     loop {
@@ -184,7 +220,7 @@ fn setup(ci: u64, rng: &mut Rng) -> Option<Setup> {
         }
         let st = tg.rc.replay(&tip);
         let n = tg.rc.get(&tip).number;
-        let committed = st.tx_info.contains_key(&h(&s1.hash())) && st.tx_info.contains_key(&h(&s2.hash()));
+        let committed = st.tx_info.contains_key(&h(&s1.hash())) && st.tx_info.contains_key(&h(&s2.hash())) && s3.as_ref().map(|t| st.tx_info.contains_key(&h(&t.hash()))).unwrap_or(true);
         if committed && n >= target_len {
             break;
         }
@@ -204,6 +240,14 @@ fn setup(ci: u64, rng: &mut Rng) -> Option<Setup> {
     let side_key = issued[38].0;
     let side_tx = builder::build_tx(&gi, &[(out_point(&side_key), 0)], &[mk_out(cap_of(&issued[38].1) - FEE, builder::lock_with_args(&gi, &[7]), vec![0x51, 0xDE])], &[], &[], None);
     let mut side_tip: Option<H> = None;
+    // a transaction proposed just before the fork so that the first main blocks after the fork
+    // point (the ones re-attached as "already verified" in the switch-back history) commit it
+    let fp_key = issued[39].0;
+    let fp_tx = builder::build_tx(&gi, &[(out_point(&fp_key), 0)], &[mk_out(cap_of(&issued[39].1) - FEE, builder::lock_with_args(&gi, &[7]), vec![0x51, 0xF9])], &[], &[], None);
+    tg.keep.insert((h(&fp_tx.hash()), 0));
+    tip = tg.extend_ex(&tip, &[fp_tx.clone()]);
+    tip = tg.extend(&tip);
+    let fork_point = tip;
     {
         let a = tip;
         let s1 = tg.extend_ex(&a, &[side_tx.clone()]);
@@ -249,7 +293,7 @@ fn setup(ci: u64, rng: &mut Rng) -> Option<Setup> {
         .map(|(k, c)| (*k, c.clone()))
         .collect();
     plain.sort_by_key(|(_, c)| c.block_number);
-    let genesis_plain: Vec<((H, u32), CellRec)> = st.cells.iter().filter(|(k, c)| c.block_number == 0 && **k != side_key && issued.iter().any(|(ik, _)| ik == *k)).map(|(k, c)| (*k, c.clone())).collect();
+    let genesis_plain: Vec<((H, u32), CellRec)> = st.cells.iter().filter(|(k, c)| c.block_number == 0 && **k != side_key && **k != fp_key && issued.iter().any(|(ik, _)| ik == *k)).map(|(k, c)| (*k, c.clone())).collect();
     if genesis_plain.len() < 44 {
         return None;
     }
@@ -285,6 +329,13 @@ fn setup(ci: u64, rng: &mut Rng) -> Option<Setup> {
     {
         let main: HashSet<H> = st.chain.iter().cloned().collect();
         let _ = &main;
+        // committed in one of the first two main blocks after the fork point?
+        let fp_at = st.tx_info.get(&h(&fp_tx.hash())).map(|i| i.block_number);
+        let fork_n = tg.rc.get(&fork_point).number;
+        if matches!(fp_at, Some(b) if b == fork_n + 1 || b == fork_n + 2) {
+            add("valid.input_created_in_block_reattached_after_switch_back", simple((OutPoint::new(fp_tx.hash(), 0), 0), cap_of(&issued[39].1) - FEE, FEE, &[], &[]), true, Some(true));
+            add("resolve.input_spent_in_block_reattached_after_switch_back", simple((out_point(&fp_key), 0), cap_of(&issued[39].1), FEE, &[], &[]), false, Some(false));
+        }
         if side_tip.is_some() {
             add("resolve.input_only_on_side_branch", simple((OutPoint::new(side_tx.hash(), 0), 0), cap_of(&issued[38].1) - FEE, FEE, &[], &[]), false, Some(false));
             // the cell the side branch spent is still live on the main chain
@@ -310,6 +361,14 @@ fn setup(ci: u64, rng: &mut Rng) -> Option<Setup> {
         // malformed dep group: a cell whose data is not an OutPointVec used as dep group
         let (k, c) = next_cell()?;
         add("resolve.dep_group_with_malformed_data", simple((out_point(&k), 0), cap_of(&c), FEE, &[CellDep::new_builder().out_point(victim.clone()).dep_type(DepType::DepGroup).build()], &[]), false, Some(false));
+    }
+    // dep expansion limit: 1 (always_success dep) + 1023 + 1024 = 2048 is the last accepted count
+    if let Some(s3) = &s3 {
+        let grp = |i: u32| CellDep::new_builder().out_point(OutPoint::new(s3.hash(), i)).dep_type(DepType::DepGroup).build();
+        let (k, c) = next_cell()?;
+        add("valid.dep_expansion_exactly_at_limit", simple((out_point(&k), 0), cap_of(&c), FEE, &[grp(0), grp(1)], &[]), true, Some(true));
+        let (k, c) = next_cell()?;
+        add("resolve.dep_expansion_one_over_limit", simple((out_point(&k), 0), cap_of(&c), FEE, &[grp(0), grp(2)], &[]), false, Some(false));
     }
     // header deps
     {
@@ -444,6 +503,7 @@ fn setup(ci: u64, rng: &mut Rng) -> Option<Setup> {
     // median which depends on filler timestamps: fix the fillers' timestamps deterministically.
     tg.cfg.ts_step_max = 1; // +1ms steps: median fully determined below
     let mut later: Vec<Cand> = vec![];
+    let mut extra_cells: Vec<((H, u32), CellRec)> = (0..3).filter_map(|_| next_cell()).collect();
     if let Some((sk, sc)) = since_cell.clone() {
         let b_c = sc.block_number;
         let e_c = EpochNumberWithFraction::from_full_value(sc.block_epoch);
@@ -504,6 +564,20 @@ fn setup(ci: u64, rng: &mut Rng) -> Option<Setup> {
         mk("since.reserved_flag_bit_set", (1u64 << 60) | n.min(1), false, Some(false));
         mk("since.unknown_metric", (0b11u64 << 61) | 1, false, Some(false));
         mk("since.malformed_epoch_fraction", (0b01u64 << 61) | ((epoch_len << 40) | (epoch_len << 24) | 1), false, Some(false));
+        // several inputs: every input's since counts, wherever it stands
+        for (name, first_zero, since, valid) in [
+            ("valid.since_second_input_at_threshold_after_zero_since_input", true, since_rel_block(n - b_c), true),
+            ("since.second_input_one_early_after_zero_since_input", true, since_rel_block(n - b_c + 1), false),
+            ("since.first_input_one_early_before_zero_since_input", false, since_abs_block(n + 1), false),
+        ] {
+            if let Some((k2, c2)) = extra_cells.pop() {
+                let plain_in = (out_point(&k2), 0u64);
+                let since_in = (op.clone(), since);
+                let ins = if first_zero { vec![plain_in, since_in] } else { vec![since_in, plain_in] };
+                let tx = builder::build_tx(&gi, &ins, &[builder::OutSpec { capacity: cap + cap_of(&c2) - FEE, lock: lock7.clone(), type_: None, data: vec![0x52, valid as u8, first_zero as u8, ci as u8] }], &[], &[], None);
+                later.push(Cand { name, tx, valid, pool: Some(valid), pre: vec![] });
+            }
+        }
     }
     // cellbase maturity: cellbase of block b is mature at n iff epoch(n) >= epoch(b) + 1 epoch
     {
@@ -544,7 +618,7 @@ fn setup(ci: u64, rng: &mut Rng) -> Option<Setup> {
     if cands.iter().any(|c| stn.tx_info.contains_key(&h(&c.tx.hash())) || c.pre.iter().any(|t| stn.tx_info.contains_key(&h(&t.hash())))) {
         return None;
     }
-    Some(Setup { gi, tg, params, tip: cur, cands })
+    Some(Setup { gi, tg, params, tip: cur, cands, side: side_tip.map(|t| (fork_point, t)) })
 }
 
 fn all_len(c: &[Cand]) -> usize {
@@ -578,6 +652,19 @@ fn pool_cfg() -> TxPoolConfig {
         min_rbf_rate: FeeRate::from_u64(1500),
         ..Default::default()
     }
+}
+
+/// Like `boot_synced` with default caches, but every block is processed to the end before the
+/// next one is delivered (parents always first), so that each intermediate tip really is adopted.
+fn boot_synced_seq(s: &Setup, order: &[H]) -> Option<Node> {
+    let node = Node::boot(&s.gi, &NodeCfg { tx_pool: Some(pool_cfg()), ..Default::default() });
+    for x in order {
+        let _ = node.chain().blocking_process_block(Arc::clone(&s.tg.rc.get(x).block));
+    }
+    if h(&node.tip_hash()) != s.tip || !wait_pool_tip(&node, &s.tip) {
+        return None;
+    }
+    Some(node)
 }
 
 fn boot_synced(s: &Setup, order: &[H], store: Option<StoreConfig>) -> Option<Node> {
@@ -638,6 +725,38 @@ fn wait_pool_tip(node: &Node, tip: &H) -> bool {
         }
         std::thread::sleep(Duration::from_millis(1));
     }
+}
+
+/// A -> B -> A delivery order: everything generated before the side branch, the first two main
+/// blocks after the fork point, the (longer) side branch, then the rest of the main chain, which
+/// wins again while its first blocks are already verified.
+fn flip_flop_order(s: &Setup) -> Option<Vec<H>> {
+    let (a, side_tip) = s.side?;
+    let path_after = |tip: &H| -> Vec<H> {
+        let mut v = vec![];
+        let mut cur = *tip;
+        while cur != a {
+            v.push(cur);
+            if cur == s.tg.rc.genesis {
+                return vec![];
+            }
+            cur = s.tg.rc.get(&cur).parent;
+        }
+        v.reverse();
+        v
+    };
+    let side = path_after(&side_tip);
+    let main = path_after(&s.tip);
+    if side.len() < 3 || main.len() <= side.len() {
+        return None;
+    }
+    let first_side = s.tg.order.iter().position(|x| *x == side[0])?;
+    let mut order: Vec<H> = s.tg.order[..first_side].to_vec();
+    order.extend(main.iter().take(2).cloned());
+    order.extend(side.iter().cloned());
+    let seen: HashSet<H> = order.iter().cloned().collect();
+    order.extend(s.tg.order.iter().filter(|x| !seen.contains(*x)).cloned());
+    Some(order)
 }
 
 fn clear_verify_cache(node: &Node) {
@@ -748,6 +867,11 @@ pub fn run(args: &Args) -> i32 {
         };
         // detour: reverse order makes everything arrive as orphans first, then connect
         let n2 = boot_synced(&s, &detour, None);
+        // switch-back: the main chain loses to the side branch and wins again
+        let n3 = flip_flop_order(&s).and_then(|o| boot_synced_seq(&s, &o));
+        if n3.is_some() {
+            c04.count("switch_back_histories");
+        }
         let cache_cfg = if ci % 2 == 0 { 0 } else { 1 };
         let cold = boot_synced(
             &s,
@@ -808,6 +932,14 @@ pub fn run(args: &Args) -> i32 {
                 c04.count("history_independence_checks");
                 if (p2, a2) != (pool, accepted) {
                     c04.violation(&format!("history_dependence@{}", c.name), format!("verdict (pool, block) = {:?} on the directly synchronised node but {:?} on the node that took a detour", (pool, accepted), (p2, a2)), wit.clone());
+                }
+            }
+            if let Some(n3) = &n3 {
+                let v3 = verdicts(&s, n3, c, false);
+                c04.eval();
+                c04.count("history_independence_checks");
+                if (v3.pool, v3.accepted) != (pool, accepted) {
+                    c04.violation(&format!("history_dependence@{}", c.name), format!("verdict (pool, block) = {:?} on the directly synchronised node but {:?} on the node whose main chain lost to a side branch and won again", (pool, accepted), (v3.pool, v3.accepted)), wit.clone());
                 }
             }
             // C14: cold caches, verification cache cleared before every event
